@@ -186,6 +186,7 @@ struct World {
     /// constants: full name (module::[Type::]NAME) -> definitions
     consts: Vec<(String, Cfg, Expr, String /*module*/, Option<String> /*self type*/)>,
     items: Vec<Located<Item>>,
+    fns: Vec<Located<Item>>,
     unknown: Vec<String>,
     files: Vec<String>,
 }
@@ -300,9 +301,173 @@ fn collect_items(w: &mut World, src: &Path, file: &Path, module: &str, cfg: &Cfg
             Item::Macro(_) | Item::Trait(_) => {
                 w.items.push(Located { module: module.to_string(), cfg: c, item });
             }
+            Item::Fn(_) => {
+                w.fns.push(Located { module: module.to_string(), cfg: c, item });
+            }
             _ => {}
         }
     }
+}
+
+/// Shape of a function body: the pre-order sequence of its literals, operators, called methods / functions,
+/// macro names, control-flow keywords, casts and constant / variant paths.  Local variable names, types of
+/// let bindings, comments and formatting are not part of it.
+struct Shape {
+    toks: Vec<String>,
+}
+
+impl Shape {
+    fn path_tok(p: &syn::Path) -> Option<String> {
+        let segs: Vec<String> = p.segments.iter().map(|s| s.ident.to_string()).collect();
+        let last = segs.last()?.clone();
+        let interesting = segs.len() >= 2 || last.chars().next().map(|c| c.is_uppercase()).unwrap_or(false);
+        if !interesting {
+            return None;
+        }
+        let n = segs.len();
+        Some(if n >= 2 { format!("{}::{}", segs[n - 2], segs[n - 1]) } else { last })
+    }
+}
+
+impl<'ast> syn::visit::Visit<'ast> for Shape {
+    fn visit_lit(&mut self, l: &'ast Lit) {
+        let t = match l {
+            Lit::Int(i) => format!("int {}", i.base10_digits()),
+            Lit::Str(s) => format!("str {}", s.value()),
+            Lit::ByteStr(b) => format!("bytes {}", b.value().iter().map(|x| format!("{x:02x}")).collect::<String>()),
+            Lit::Byte(b) => format!("byte {}", b.value()),
+            Lit::Char(c) => format!("char {}", c.value() as u32),
+            Lit::Bool(b) => format!("bool {}", b.value),
+            Lit::Float(f) => format!("float {}", f.base10_digits()),
+            _ => "lit ?".to_string(),
+        };
+        self.toks.push(t);
+    }
+    fn visit_bin_op(&mut self, o: &'ast syn::BinOp) {
+        self.toks.push(format!("op {}", o.to_token_stream().to_string().replace(' ', "")));
+    }
+    fn visit_un_op(&mut self, o: &'ast syn::UnOp) {
+        self.toks.push(format!("un {}", o.to_token_stream().to_string().replace(' ', "")));
+    }
+    fn visit_expr(&mut self, e: &'ast Expr) {
+        match e {
+            Expr::MethodCall(m) => {
+                self.visit_expr(&m.receiver);
+                self.toks.push(format!(".{}", m.method));
+                for a in &m.args {
+                    self.visit_expr(a);
+                }
+                return;
+            }
+            Expr::Call(c) => {
+                if let Expr::Path(p) = &*c.func {
+                    let segs: Vec<String> = p.path.segments.iter().map(|s| s.ident.to_string()).collect();
+                    let n = segs.len();
+                    self.toks.push(format!("call {}", if n >= 2 { format!("{}::{}", segs[n - 2], segs[n - 1]) } else { segs.join("::") }));
+                } else {
+                    self.toks.push("call".to_string());
+                    self.visit_expr(&c.func);
+                }
+                for a in &c.args {
+                    self.visit_expr(a);
+                }
+                return;
+            }
+            Expr::Path(p) => {
+                if let Some(t) = Shape::path_tok(&p.path) {
+                    self.toks.push(format!("path {t}"));
+                }
+                return;
+            }
+            Expr::Macro(m) => {
+                let name = m.mac.path.segments.last().map(|s| s.ident.to_string()).unwrap_or_default();
+                // logging macros carry no behaviour
+                if !(name.starts_with("info") || name.starts_with("debug_now") || name.starts_with("warn") || name.starts_with("error_now") || name.starts_with("trace")) {
+                    self.toks.push(format!("macro {name}"));
+                    if let Ok(args) = m.mac.parse_body_with(syn::punctuated::Punctuated::<Expr, syn::Token![,]>::parse_terminated) {
+                        for a in &args {
+                            self.visit_expr(a);
+                        }
+                    }
+                }
+                return;
+            }
+            Expr::If(_) => self.toks.push("if".into()),
+            Expr::Match(_) => self.toks.push("match".into()),
+            Expr::Return(_) => self.toks.push("return".into()),
+            Expr::Try(_) => self.toks.push("?".into()),
+            Expr::Index(_) => self.toks.push("index".into()),
+            Expr::Range(r) => self.toks.push(match r.limits {
+                syn::RangeLimits::HalfOpen(_) => "range ..".into(),
+                syn::RangeLimits::Closed(_) => "range ..=".into(),
+            }),
+            Expr::Cast(c) => self.toks.push(format!("as {}", c.ty.to_token_stream().to_string().replace(' ', ""))),
+            Expr::ForLoop(_) => self.toks.push("for".into()),
+            Expr::While(_) => self.toks.push("while".into()),
+            Expr::Loop(_) => self.toks.push("loop".into()),
+            Expr::Break(_) => self.toks.push("break".into()),
+            Expr::Continue(_) => self.toks.push("continue".into()),
+            Expr::Unsafe(_) => self.toks.push("unsafe".into()),
+            Expr::Closure(_) => self.toks.push("closure".into()),
+            Expr::Struct(s) => {
+                if let Some(t) = Shape::path_tok(&s.path) {
+                    self.toks.push(format!("struct {t}"));
+                }
+            }
+            Expr::Let(_) => self.toks.push("iflet".into()),
+            Expr::Assign(_) => self.toks.push("assign".into()),
+            _ => {}
+        }
+        syn::visit::visit_expr(self, e);
+    }
+    fn visit_pat(&mut self, p: &'ast Pat) {
+        match p {
+            Pat::Path(pp) => {
+                if let Some(t) = Shape::path_tok(&pp.path) {
+                    self.toks.push(format!("pat {t}"));
+                }
+            }
+            Pat::TupleStruct(ts) => {
+                if let Some(t) = Shape::path_tok(&ts.path) {
+                    self.toks.push(format!("pat {t}"));
+                }
+            }
+            Pat::Struct(ps) => {
+                if let Some(t) = Shape::path_tok(&ps.path) {
+                    self.toks.push(format!("pat {t}"));
+                }
+            }
+            Pat::Wild(_) => self.toks.push("pat _".into()),
+            Pat::Range(_) => self.toks.push("pat range".into()),
+            Pat::Or(_) => self.toks.push("pat |".into()),
+            _ => {}
+        }
+        syn::visit::visit_pat(self, p);
+    }
+    fn visit_item(&mut self, i: &'ast Item) {
+        // items nested in a body (visitor structs and their impls): their functions belong to the shape
+        match i {
+            Item::Fn(f) => {
+                self.toks.push(format!("fn {}", f.sig.ident));
+                syn::visit::Visit::visit_block(self, &f.block);
+            }
+            Item::Impl(im) => {
+                for ii in &im.items {
+                    if let syn::ImplItem::Fn(f) = ii {
+                        self.toks.push(format!("fn {}", f.sig.ident));
+                        syn::visit::Visit::visit_block(self, &f.block);
+                    }
+                }
+            }
+            _ => {}
+        }
+    }
+}
+
+fn shape_of(block: &syn::Block) -> Vec<String> {
+    let mut s = Shape { toks: vec![] };
+    syn::visit::Visit::visit_block(&mut s, block);
+    s.toks
 }
 
 struct Tr<'a> {
@@ -1274,6 +1439,74 @@ fn main() {
         decls.push(format!("(CTrue, RUnknown {})", cs(u)));
     }
     writeln!(o, "Definition raw_decls (f : feats) : list (cfg * rdecl) := [\n  {}\n].", decls.join(";\n  ")).unwrap();
+
+    // ---- shapes of all function bodies (separate file, imported only by the shape obligations)
+    let mut shapes: Vec<(String, Vec<String>)> = vec![];
+    for li in &w.fns {
+        if let Item::Fn(f) = &li.item {
+            shapes.push((mod_join(&li.module, &f.sig.ident.to_string()), shape_of(&f.block)));
+        }
+    }
+    for li in &w.items {
+        match &li.item {
+            Item::Impl(im) => {
+                let self_short = match &*im.self_ty {
+                    Type::Path(tp) => tp.path.segments.iter().map(|s| s.ident.to_string()).collect::<Vec<_>>().join("::"),
+                    Type::Reference(r) => format!("&{}", r.elem.to_token_stream().to_string().replace(' ', "")),
+                    t => t.to_token_stream().to_string().replace(' ', ""),
+                };
+                let prefix = match &im.trait_ {
+                    Some((_, p, _)) => {
+                        let seg = p.segments.last().unwrap();
+                        let targ = match &seg.arguments {
+                            syn::PathArguments::AngleBracketed(a) => a.args.to_token_stream().to_string().replace(' ', ""),
+                            _ => String::new(),
+                        };
+                        if targ.is_empty() { format!("{} for {}", seg.ident, self_short) } else { format!("{}<{}> for {}", seg.ident, targ, self_short) }
+                    }
+                    None => self_short.clone(),
+                };
+                for ii in &im.items {
+                    if let syn::ImplItem::Fn(f) = ii {
+                        if cfg_of(&f.attrs).is_test() {
+                            continue;
+                        }
+                        shapes.push((format!("{}::{}", mod_join(&li.module, &prefix), f.sig.ident), shape_of(&f.block)));
+                    }
+                }
+            }
+            Item::Trait(t) => {
+                for ti in &t.items {
+                    if let syn::TraitItem::Fn(f) = ti {
+                        if let Some(b) = &f.default {
+                            shapes.push((format!("{}::{}", mod_join(&li.module, &format!("trait {}", t.ident)), f.sig.ident), shape_of(b)));
+                        }
+                    }
+                }
+            }
+            _ => {}
+        }
+    }
+    let mut so = String::new();
+    writeln!(so, "(* GENERATED by /verif/translator from /repo/src on every run. Do not edit.").unwrap();
+    writeln!(so, "   Shape of every function body: literals, operators, calls, macros, control flow, casts, constant and").unwrap();
+    writeln!(so, "   variant paths in source order (no local names, no formatting). *)").unwrap();
+    writeln!(so, "From Coq Require Import List String.\nImport ListNotations.\nLocal Open Scope string_scope.\n").unwrap();
+    writeln!(
+        so,
+        "Definition fn_shapes : list (string * list string) := [\n  {}\n].",
+        shapes
+            .iter()
+            .map(|(n, t)| format!("({}, [{}])", cs(n), t.iter().map(|x| cs(x)).collect::<Vec<_>>().join("; ")))
+            .collect::<Vec<_>>()
+            .join(";\n  ")
+    )
+    .unwrap();
+    let shp = PathBuf::from(&args[2]).with_file_name("Shapes.v");
+    let old_s = std::fs::read_to_string(&shp).unwrap_or_default();
+    if old_s != so {
+        std::fs::write(&shp, &so).expect("write Shapes.v");
+    }
 
     let outp = PathBuf::from(&args[2]);
     let old = std::fs::read_to_string(&outp).unwrap_or_default();
